@@ -1,7 +1,7 @@
 import VncModel.Basic.Proto
 import VncModel.Cursor.Session
 /-! Line-protocol driver for the cursor model (C15). Same script as harness/c15.c.
-Arguments: `orig-clip` / `orig-colour` select the model of the unrepaired code (see Model.lean). -/
+Arguments: `orig-clip` / `orig-colour` / `orig-setenc` select the model of the unrepaired code (see Model.lean). -/
 open VncModel VncModel.Cursor VncModel.Proto
 
 structure DState where
@@ -46,6 +46,7 @@ def namedFmt (n : String) : Option (Nat × Format) :=
   else if n = "f16b" then some (2, ⟨31, 63, 31, 11, 5, 0⟩)
   else if n = "f32" then some (4, ⟨255, 255, 255, 0, 8, 16⟩)
   else if n = "f32b" then some (4, ⟨255, 255, 255, 16, 8, 0⟩)
+  else if n = "f24" then some (3, ⟨255, 255, 255, 0, 8, 16⟩)
   else none
 
 def insertSorted (x : Nat × ClientKind) : List (Nat × ClientKind) → List (Nat × ClientKind)
@@ -72,8 +73,8 @@ def parseCursor (bpp : Nat) (toks : List String) : Option (Option Cursor) :=
   | "cursor" :: kind :: w :: h :: xh :: yh :: rest =>
     match nat? w, nat? h, nat? xh, nat? yh with
     | some w, some h, some xh, some yh =>
-      if w < 1 || h < 1 || w > 64 || h > 64 then none else
       let rb := rowBytes w
+      if w > 1200 || h > 1200 || rb * h > 66000 || ((kind == "rich" || kind == "alpha") && w * h * bpp > 66000) || ((w == 0 || h == 0) && kind != "x") then none else
       let cols (l : List String) : Option (List Nat) := l.mapM nat?
       match kind, rest with
       | "x", src :: mask :: colours =>
@@ -140,9 +141,9 @@ def dstep (v : Variant) (st : DState) (toks : List String) : DState × List Stri
   | none, ["screen", w, h, bpp] =>
     match nat? w, nat? h, nat? bpp with
     | some w, some h, some bpp =>
-      if w < 1 || h < 1 || w > 200 || h > 200 || (bpp != 1 && bpp != 2 && bpp != 4) then (st, ["bad-op"]) else
+      if w < 1 || h < 1 || w > 200 || h > 200 || (bpp != 1 && bpp != 2 && bpp != 3 && bpp != 4) then (st, ["bad-op"]) else
       let fb := Array.ofFn (n := w * h) fun k => pixval bpp (k.val % w) (k.val / w) 0
-      let scr : Screen := { w := w, h := h, bpp := bpp, fmt := fmtOf bpp, fb := fb, under := #[], cursor := none, curX := 0, curY := 0 }
+      let scr : Screen := { w := w, h := h, bpp := bpp, fmt := fmtOf bpp, fb := fb, under := #[], cursor := some defaultCursor, curX := 0, curY := 0 }
       ({ st with sess := some { scr := scr, clients := [], pointerClient := none, failArmed := none } }, ["ok"])
     | _, _, _ => (st, ["bad-op"])
   | none, _ => (st, ["bad-op"])
@@ -172,6 +173,12 @@ def dstep (v : Variant) (st : DState) (toks : List String) : DState × List Stri
       if id ≥ 4 || st.used.any (fun u => u.1 == id) then (st, ["bad-op"]) else
       ({ st with sess := some (newClient s id k tf), used := insertSorted (id, k) st.used }, ["ok"])
     | _, _, _ => (st, ["bad-op"])
+  | some s, ["setenc", id, kind] =>
+    match nat? id, (if kind = "raw" then some ClientKind.raw else if kind = "x" then some .x else if kind = "rich" then some .rich else none) with
+    | some id, some k =>
+      if !alive s id then (st, ["bad-op"]) else
+      ({ st with sess := some (setEncodings v s id k) }, ["ok"])
+    | _, _ => (st, ["bad-op"])
   | some s, ["ptr", id, x, y, m] =>
     match nat? id, nat? x, nat? y, nat? m with
     | some id, some x, some y, some m =>
@@ -213,5 +220,5 @@ def dstep (v : Variant) (st : DState) (toks : List String) : DState × List Stri
   | _, _ => (st, ["bad-op"])
 
 def main (args : List String) : IO Unit :=
-  let v : Variant := ⟨!args.contains "orig-clip", !args.contains "orig-colour"⟩
+  let v : Variant := ⟨!args.contains "orig-clip", !args.contains "orig-colour", !args.contains "orig-setenc"⟩
   runDriver ({} : DState) (dstep v)
